@@ -93,8 +93,9 @@ def name_factory(n):
 
 # ------------------------------------------------------------------------------------------------ guards (UC)
 
-ALLOW = [r'^ide::rename::rename$', r'^ide::rename::rename::\{closure#[01]\}$', r'^ide::rename::prepare_rename$', r'^ide::rename::prepare_rename::\{closure#\d\}$',
-         r'^lexer::', r'^kind::<impl at .*>::lex', r'^kind::.*::lex::']
+# every helper of the rename module is executed (a hand-written name classifier next to `rename` is part of the guard, not environment);
+# find_def has its own kernel (AliasSpec) and stays havoc'd here
+ALLOW = [r'^ide::rename::(?!find_def)', r'^lexer::', r'^kind::<impl at .*>::lex', r'^kind::.*::lex::']
 
 
 class GuardSpec:
